@@ -125,10 +125,13 @@ func (m *MessageStore) ProcessMessageQueueForDevicePK(ctx context.Context, devic
 			m.logger.Error("unable to process message, unmarshal of device pk failed", logutil.PrivateBinary("devicepk", devicePK))
 		} else if device.hasKnownChainKey = m.secretStore.IsChainKeyKnownForDevice(ctx, m.groupPublicKey, devicePublicKey); !device.hasKnownChainKey {
 			m.logger.Error("unable to process message, no secret found for device pk", logutil.PrivateBinary("devicepk", devicePK))
-		} else if next := device.queue.Next(); next != nil {
-			// let's try processing one message from the queue.
-			// if it succeeds, the whole queue should be added for processing.
-			m.messagesQueue.Add(next)
+		} else {
+			// the chain key is known now: give every parked message of this
+			// device another try. Retrying only the oldest one is not enough,
+			// it may have been sealed before the chain key was shared with us
+			// and then never opens, leaving the decryptable ones behind it
+			// parked until the device sends something new.
+			m.processDeviceMessagesInQueue(device)
 		}
 	}
 	m.muDeviceCaches.Unlock()
@@ -170,8 +173,8 @@ func (m *MessageStore) processMessageLoop(ctx context.Context, tracer *messageMe
 			// unknown device, lets keep moving
 			continue
 		} else if !hasKnownChainKey {
-			// we dont know the chain key yet, add message to the device cache
-			device.queue.Add(message)
+			// we dont know the chain key yet, the message has been added to
+			// the device cache by getOrCreateDeviceCache
 			_ = m.emitters.groupCacheMessage.Emit(*message)
 			continue
 		}
@@ -220,6 +223,14 @@ func (m *MessageStore) getOrCreateDeviceCache(ctx context.Context, message *mess
 			hasKnownChainKey: hasSecret,
 		}
 		m.deviceCaches[devicePublicKeyString] = device
+	}
+
+	if !device.hasKnownChainKey {
+		// park the message in the critical section in which the chain key
+		// was found missing: ProcessMessageQueueForDevicePK flushes the
+		// device cache under the same lock, so a chain key registered in
+		// the meantime cannot miss this message
+		device.queue.Add(message)
 	}
 
 	return device, device.hasKnownChainKey
